@@ -216,6 +216,10 @@ class StringRewriter(object):
                     rep = 'vstr_compare(&%s, &%s)' % (var, args[0])
                 elif meth == 'compare' and len(args) == 3 and args[2] in self.sv:
                     rep = 'vstr_compare3(&%s, %s, %s, &%s)' % (var, args[0], args[1], args[2])
+                elif meth == 'compare' and len(args) == 3 and re.match(r'^"(\\.|[^"\\])*"$', args[2]):
+                    rep = 'vstr_compare3_lit(&%s, %s, %s, %s)' % (var, args[0], args[1], args[2])
+                elif meth == 'compare' and len(args) == 1 and re.match(r'^"(\\.|[^"\\])*"$', args[0]):
+                    rep = 'vstr_compare_lit(&%s, %s)' % (var, args[0])
                 elif meth == 'at' and len(args) == 1:
                     rep = 'vstr_at_checked(&%s, %s)' % (var, args[0])
                 elif meth == 'back' and not args:
@@ -269,6 +273,19 @@ class StringRewriter(object):
                 rep = '%svstr_eq(&%s, &%s)' % ('!' if m.group(2) == '!=' else '', m.group(1), m.group(3))
                 s = s[:m.start()] + rep + s[m.end():]
                 self._fire('operator==')
+                changed = True
+                continue
+            # X == "literal" / X != "literal" / "literal" == X
+            m = re.search(r'\b([A-Za-z_]\w*)\s*(==|!=)\s*("(?:\\.|[^"\\])*")', s)
+            if m and m.group(1) in self.sv:
+                s = s[:m.start()] + '(vstr_compare_lit(&%s, %s) %s 0)' % (m.group(1), m.group(3), m.group(2)) + s[m.end():]
+                self._fire('operator==lit')
+                changed = True
+                continue
+            m = re.search(r'("(?:\\.|[^"\\])*")\s*(==|!=)\s*([A-Za-z_]\w*)\b', s)
+            if m and m.group(3) in self.sv:
+                s = s[:m.start()] + '(vstr_compare_lit(&%s, %s) %s 0)' % (m.group(3), m.group(1), m.group(2)) + s[m.end():]
+                self._fire('operator==lit')
                 changed = True
                 continue
         s = s.replace('std::string::npos', 'VSTR_NPOS')
